@@ -55,6 +55,32 @@ theorem parse_print_args (a : E) (hw : wf a = true) (ha : isArgs a = true) (hr :
     ∃ n0, ∀ n, n0 ≤ n → parseArgs n (bare a true ++ tk .rparen :: R) = some (a, tk .rparen :: R) :=
   (main2 a hw hr).2 ha R
 
+/-- NoIn (§11.8, §12.6.3-4): with allowIn = false the parser NEVER consumes a top-level `in`.  For every expression `e`
+    that binds tighter than the relational operators (ShiftExpression and above — in particular every
+    LeftHandSideExpression, the left side of `for (… in …)`), the NoIn derivation of `e` followed by `in …` parses to `e`
+    and leaves the `in` (and everything after it) untouched. -/
+theorem noin_keeps_top_level_in (e : E) (hw : wf e = true) (he : isExprHead e = true) (hr : relChain e = false)
+    (hp : 10 ≤ prec e) (rest : List Tok) :
+    ∃ n0, ∀ n, n0 ≤ n → parseExpression n false (bare e false ++ tk .kIn :: rest) = some (e, tk .kIn :: rest) := by
+  have rt := ((main2 e hw hr).1 he).1 10 (by omega) (by omega) (tk .kIn :: rest) (show stopB 10 (.p .kIn) false = true by decide)
+  rw [pr_bare (by omega) hp] at rt
+  have := descendA false 10 0 (by omega) rt (stopA_in rest)
+  rw [bare_noin e hp]
+  exact this
+
+/-- … whereas with allowIn = true the same text is the relational expression `e in r` (an instance of `parse_print`). -/
+theorem in_consumed_with_allowIn (e r : E) (hwe : wf e = true) (hee : isExprHead e = true) (hre : relChain e = false)
+    (hwr : wf r = true) (her : isExprHead r = true) (hrr : relChain r = false) (hpe : 10 ≤ prec e) (hpr : 10 ≤ prec r) :
+    ∃ n0, ∀ n, n0 ≤ n →
+      parseExpression n true (bare e true ++ tk .kIn :: (bare r true ++ [eofTok])) = some (.bin .in_ e r, [eofTok]) := by
+  have h := parse_print (.bin .in_ e r) (by simp [wf, hwe, hwr, hee, her]) rfl
+    (by simp only [relChain, hre, hrr, Bool.or_false, Bool.and_eq_false_iff, decide_eq_false_iff_not]; right; omega)
+  have hp : print (.bin .in_ e r) = bare e true ++ tk .kIn :: bare r true := by
+    show pr 9 true e ++ tk .kIn :: pr 10 true r = _
+    rw [pr_bare (by omega) (by omega), pr_bare (by omega) hpr]
+  rw [hp] at h
+  simpa using h
+
 /-- non-vacuity: member/call/new chains mixed with operators -/
 example : let e : E := .asg .assign (.dot (.call (.new_ (.dot (.id "a") "b") (.acons (.num "1") (.acons (.bin .add (.id "x") (.id "y")) .anil))) .anil) "c")
                           (.bin .mul (.new_ (.new_ (.id "F") .noargs) .noargs) (.idx (.call (.id "f") (.acons (.bin .comma (.id "p") (.id "q")) .anil)) (.bin .in_ (.str "'k'") (.id "o"))))
